@@ -1,6 +1,7 @@
 package checks
 
 import (
+	"context"
 	"fmt"
 	"net/http"
 	"strconv"
@@ -36,6 +37,11 @@ type c23Req struct {
 	kind     string
 	outcomes []c23Outcome
 	trace    []int // links actually invoked, in order
+	// cancelAt >= 0: the request's context is cancelled while that link is
+	// answering (the caller gave up, or a deadline in front of the server
+	// passed, while the authority was slow)
+	cancelAt int
+	cancel   context.CancelFunc
 }
 
 // ---- the oracle: an independent table written from the property statement ----
@@ -115,6 +121,17 @@ func C23(e *simkern.Env) {
 		ops = 4 + tp.Draw(10)
 		depth = 4
 	}
+	// one run in five with a chain of two or more: a steady history — most
+	// requests are accepted by the same link behind the head (the links before
+	// it decline with a direct ValueError), for long enough that anything the
+	// chain remembers about earlier requests has settled
+	favourite := -1
+	if chainLen >= 2 && tp.Bool(1, 5) {
+		favourite = 1 + tp.Draw(chainLen-1)
+		ops = 10 + tp.Draw(8)
+		nClients = 1 + tp.Draw(2)
+	}
+	e.Knob("steady_link", favourite)
 	e.Knob("chain_len", chainLen)
 	e.Knob("prefix", prefix)
 	e.Knob("oauth_metadata", withMeta)
@@ -141,6 +158,10 @@ func C23(e *simkern.Env) {
 				}
 				rq.trace = append(rq.trace, i)
 				o := rq.outcomes[i]
+				if rq.cancelAt == i && rq.cancel != nil {
+					sim.Fault("request-context-cancelled-during-auth")
+					rq.cancel()
+				}
 				if o.ok {
 					return &vgirpc.AuthContext{Domain: fmt.Sprintf("d%d", i), Principal: fmt.Sprintf("p%d", i), Authenticated: true}, nil
 				}
@@ -201,6 +222,16 @@ func C23(e *simkern.Env) {
 			return
 		}
 		inst := cl.Inst[0]
+		hx.RequestContext = func(r *http.Request) context.Context {
+			rq := plan[r.Header.Get("X-Sim-Req")]
+			if rq == nil || rq.cancelAt < 0 {
+				return r.Context()
+			}
+			ctx, cancel := context.WithCancel(r.Context())
+			rq.cancel = cancel
+			return ctx
+		}
+		defer func() { hx.RequestContext = nil }()
 		nextID := int64(1000)
 		judged := 0
 
@@ -347,7 +378,8 @@ func C23(e *simkern.Env) {
 				for op := 0; op < ops && !e.Violated(); op++ {
 					sim.Y("client.idle")
 					nextID++
-					rq := &c23Req{id: nextID}
+					rq := &c23Req{id: nextID, cancelAt: -1}
+					steady := favourite >= 0 && !tp.Bool(1, 6)
 					kinds := []string{"unary", "init", "describe"}
 					if withIntrospect {
 						kinds = append(kinds, "introspect")
@@ -355,6 +387,15 @@ func C23(e *simkern.Env) {
 					rq.kind = kinds[tp.Draw(len(kinds))]
 					for i := 0; i < nLinks; i++ {
 						var o c23Outcome
+						if steady && i <= favourite {
+							if i == favourite {
+								o.ok = true
+							} else {
+								o.err = &authw.ErrSpec{Kind: authw.KRpc, Type: "ValueError"}
+							}
+							rq.outcomes = append(rq.outcomes, o)
+							continue
+						}
 						switch tp.Draw(4) {
 						case 0:
 							o.ok = true
@@ -367,6 +408,18 @@ func C23(e *simkern.Env) {
 							o.withCtx = tp.Bool(1, 4)
 						}
 						rq.outcomes = append(rq.outcomes, o)
+					}
+					// the link at which the chain stops; when it stops with a
+					// failure, the caller may give up while that link answers
+					stop := nLinks - 1
+					for i, o := range rq.outcomes {
+						if o.ok || chainLen == 0 || !c23DirectValueError(o.err) {
+							stop = i
+							break
+						}
+					}
+					if !rq.outcomes[stop].ok && tp.Bool(1, 5) {
+						rq.cancelAt = stop
 					}
 					ids := strconv.FormatInt(rq.id, 10)
 					plan[ids] = rq
@@ -421,12 +474,12 @@ func init() {
 	Registry["C23"] = &Info{
 		Run:   C23,
 		Level: "exploration",
-		Rule: "fault sequence on the authority seam: each run draws a configuration (bare authenticator or ChainAuthenticate of 1-4 links, prefix, OAuth metadata/client id, introspection) and 1-3 client tasks; for every request the tape draws one outcome per link — success, a directly returned ValueError RpcError, or an error tree (AuthUnavailableError with/without RetryAfter, AuthFailure with each of the six reasons or the empty reason, RpcError of seven types, foreign error; wrapped 0-3 deep (0-4 in thorough) by fmt.Errorf %w, a custom Unwrap type, errors.Join, or two %w verbs) — and the real authenticate()/ChainAuthenticate code maps it; the verdict comes from a table written from the property statement (status, Retry-After, reason in the closed set, no-store, WWW-Authenticate per RFC 9728) and from the call trace of the links. This property has very little schedule in it: the links yield so requests of different clients interleave inside the chain, but the substance is the outcome sequence; distinct = distinct schedule+outcome fingerprint; non-trivial = at least one link returned an error",
+		Rule: "fault sequence on the authority seam: each run draws a configuration (bare authenticator or ChainAuthenticate of 1-4 links, prefix, OAuth metadata/client id, introspection) and 1-3 client tasks; for every request the tape draws one outcome per link — success, a directly returned ValueError RpcError, or an error tree (AuthUnavailableError with/without RetryAfter, AuthFailure with each of the six reasons or the empty reason, RpcError of seven types, foreign error; wrapped 0-3 deep (0-4 in thorough) by fmt.Errorf %w, a custom Unwrap type, errors.Join, or two %w verbs) — and the real authenticate()/ChainAuthenticate code maps it; one failing request in five has its context cancelled while the deciding link answers; one chain run in five is a steady history (10-17 requests per client, most accepted by the same link behind the head); the verdict comes from a table written from the property statement (status, Retry-After, reason in the closed set, no-store, WWW-Authenticate per RFC 9728) and from the call trace of the links. This property has very little schedule in it: the links yield so requests of different clients interleave inside the chain, but the substance is the outcome sequence; distinct = distinct schedule+outcome fingerprint; non-trivial = at least one link returned an error",
 		Real:  []string{"vgirpc.HttpServer.authenticate, writeUnauthorized, classifyAuthError", "vgirpc.ChainAuthenticate", "unary / stream-init / __describe__ / introspection routes", "vgirpc.Server dispatch"},
 		Stub:  []string{"authenticator links (outcome from the tape)", "HTTP transport (direct ServeHTTP call)", "token resolver", "scripted methods"},
 		Quick: 1600, Thorough: 120000,
 		Warm:       warmHTTP,
-		FaultKinds: []string{"auth-unavailable", "auth-failure", "auth-rpcerror", "auth-foreign-error", "auth-error-with-context"},
+		FaultKinds: []string{"auth-unavailable", "auth-failure", "auth-rpcerror", "auth-foreign-error", "auth-error-with-context", "request-context-cancelled-during-auth"},
 		Assumptions: []string{
 			"the default Retry-After (5 s) is taken from the doc comments of AuthUnavailableError.RetryAfter / defaultAuthRetryAfterSeconds in auth.go (there is no separate specification document in the repository)",
 			"an AuthFailure reachable only through a multi-error (errors.Join or several %w: Unwrap() []error) is not decided by the statement's 'in the Unwrap chain': 401 and 500 are both accepted (a 401 must still be well-formed)",
